@@ -6,10 +6,11 @@ sys.path.insert(0, os.path.join(V, 'lib')); sys.path.insert(0, os.path.join(V, '
 ids = [json.loads(l)['id'] for l in open(os.path.join(V, 'properties.jsonl'))]
 checks, na = [], []
 reasons = json.load(open(os.path.join(V, 'props', 'not_claimed.json')))
+claimed = set(open(os.path.join(V, 'props', 'claimed.txt')).read().split())
 for pid in ids:
     p = os.path.join(V, 'props', pid + '.py')
     meta = None
-    if os.path.exists(p):
+    if os.path.exists(p) and pid in claimed:
         meta = getattr(importlib.import_module(pid), 'META', None)
     if meta is None:
         na.append({'property_id': pid, 'reason': reasons.get(pid, 'not claimed yet: model/theorems/correspondence for this property are not built in this snapshot (see DESIGN.md section 6 for the plan)')})
